@@ -564,8 +564,42 @@ func c20AnsweredMeansDone(t *testing.T) {
 	}
 }
 
+// Requests overlap: while the body of a request that will be REJECTED is still arriving, a valid PUT is accepted.
+// The rejected one changes nothing - in particular it does not put back the level it saw when it arrived.
+func c20RejectedPutUndoesNothing(t *testing.T) {
+	for _, bad := range []struct{ ctype, body string }{
+		{"application/json", `{"level":"nonsense"}`}, {"application/json", `{"level":`}, {"application/json", `{}`},
+		{"application/x-www-form-urlencoded", "level=nonsense"}, {"application/x-www-form-urlencoded", "other=1"},
+	} {
+		al := zap.NewAtomicLevelAt(zapcore.InfoLevel)
+		slow := &c20GatedBody{gate: make(chan struct{}), entered: make(chan struct{}), drained: make(chan struct{}), data: strings.NewReader(bad.body)}
+		req := httptest.NewRequest(http.MethodPut, "/level", slow)
+		req.Header.Set("Content-Type", bad.ctype)
+		rec := httptest.NewRecorder()
+		done := make(chan struct{})
+		go func() { al.ServeHTTP(rec, req); close(done) }()
+		<-slow.entered
+		good := httptest.NewRequest(http.MethodPut, "/level", strings.NewReader(`{"level":"error"}`))
+		good.Header.Set("Content-Type", "application/json")
+		grec := httptest.NewRecorder()
+		al.ServeHTTP(grec, good)
+		if grec.Code != http.StatusOK || al.Level() != zapcore.ErrorLevel {
+			t.Fatalf("valid PUT while another request is pending: status %d, level %v", grec.Code, al.Level())
+		}
+		close(slow.gate)
+		<-done
+		if rec.Code == http.StatusOK {
+			t.Fatalf("PUT %s %q was accepted", bad.ctype, bad.body)
+		}
+		if al.Level() != zapcore.ErrorLevel {
+			t.Fatalf("a PUT that was rejected with status %d (%s %q) changed the level to %v, undoing the valid PUT answered 200 in the meantime", rec.Code, bad.ctype, bad.body, al.Level())
+		}
+	}
+}
+
 func TestRegressC20(t *testing.T) {
 	c20AnsweredMeansDone(t)
+	c20RejectedPutUndoesNothing(t)
 	// non-ASCII look-alikes are not level names
 	for _, s := range []string{"İNFO", "PANİC", "ınfo", "ｉｎｆｏ", " info", "info\n"} {
 		l := zapcore.Level(3)
